@@ -69,6 +69,12 @@ def run(ck, tier):
         if kind in ('ascii', 'binary'):
             ck.ob('R3', f.qn, 'framer has a skip-to-start-delimiter branch', any(
                 ev.kind == 'cond' and '.find(' in U(ev._sub) for fp in fps for ev in fp.path.ev), detail='no-delimiter-search', loc=cx.floc(f))
+    ck.rule('R5', 'state carried between calls stays coherent: a cached header is reset whenever bytes are dropped from the front of the buffer, and addToFrame only appends (shared with C06 R6/R7)')
+    from .c06 import r6_header_cache_coherence, r7_add_appends
+    for kind in KINDS:
+        cls, f, fps = framer_paths(cx, kind)
+        ck.guard(r6_header_cache_coherence, ck, cx, kind, cls, f, fps, 'R5')
+        ck.guard(r7_add_appends, ck, cx, kind, cls, 'R5')
     ck.floor('R1', n1, 3, 'failed-integrity paths')
     ck.floor('R2', n2, 3, 'foreign-unit paths')
     ck.floor('R3', n3, 2, 'garbage-prefix paths')
